@@ -738,20 +738,23 @@ func (s *sce) judge(d *delivery) {
 	case fm != nil:
 		r.Check(!accepted, P, fm.oracle, fm.kind,
 			"request accepted (200) although %s: signed {%s %s origin=%q destination=%q body=%q}", fm.kind, sg.method, sg.uri, sg.origin, sg.dest, string(sg.body))
-		if !d.httpLayer {
+		// status class: judged only when this fault is the sole deviation
+		if !d.httpLayer && len(d.marks) == 1 && d.keyAccept {
 			if hasCode(fm.codes, d.code) {
 				r.Probe("refusal_status_as_documented")
-			} else if !(d.keyRefuse || strings.Contains(d.keyNote, "error")) {
+			} else {
 				r.Probe(fmt.Sprintf("refusal_status_other:%s:%d", fm.kind, d.code))
 			}
 		}
 	case d.keyRefuse:
 		r.Check(!accepted, P, "refuse_key_validity", d.keyNote,
 			"request accepted (200) although no source available to D shows a signing key of O (%v) valid at receipt (%s)", sg.keyIDs, d.keyNote)
-		if d.code == 401 {
-			r.Probe("refusal_status_as_documented")
-		} else {
-			r.Probe(fmt.Sprintf("refusal_status_other:key_validity:%d", d.code))
+		if len(d.marks) == 0 && !s.db.storeErr {
+			if d.code == 401 {
+				r.Probe("refusal_status_as_documented")
+			} else {
+				r.Probe(fmt.Sprintf("refusal_status_other:key_validity:%d", d.code))
+			}
 		}
 		r.Probe("refused_key_not_valid_at_receipt")
 	case len(neutrals) == 0 && d.keyAccept:
